@@ -281,7 +281,13 @@ func (r Result) String() string { return [...]string{"sat", "unsat", "unknown"}[
 // variables is returned.
 func (s *Solver) Check(extra ...*Term) (Result, map[string]uint64) {
 	start := time.Now()
-	defer func() { s.Time += time.Since(start) }()
+	defer func() {
+		d := time.Since(start)
+		s.Time += d
+		if d > 3*time.Second && ex != nil {
+			ex.stats.Assumes[fmt.Sprintf("slow query (>3s) at %s", ex.where())]++
+		}
+	}()
 	s.Queries++
 	for _, e := range extra {
 		s.define(e)
